@@ -142,6 +142,23 @@ def cases(tier, seed):
                           "tree": r.choice([True, True, None]), "emdpath": None})
             steps.append({"do": "walk", "path": "A"})
             first = False
+        if i % 8 == 7 and directed is None:
+            # directed (state that leaks between calls): a node of a tree the file does NOT hold is grafted under an emdpath into
+            # a tree it holds — no new top-level tree appears — then the file is listed, and then that other tree is appended
+            # whole: it must become a further top-level tree, and the listing in between names exactly the trees in the file
+            fps = [p_ for p_ in gen.tree_paths(trees["T1"]) if p_]
+            if fps:
+                directed = "foreign_node_then_its_root"
+                steps.append({"do": "save", "path": "A", "src": "T0", "target": [], "mode": "w", "tree": True, "emdpath": None})
+                steps.append({"do": "walk", "path": "A"})
+                ep = "/".join(["R0"] + list(r.choice(gen.tree_paths(trees["T0"]))))
+                steps.append({"do": "save", "path": "A", "src": "T1", "target": list(r.choice(fps)), "mode": r.choice(["a", "ao"]),
+                              "tree": r.choice([True, True, False]), "emdpath": ep})
+                steps.append({"do": "walk", "path": "A"})
+                steps.append({"do": "read", "path": "A", "emdpath": None, "tree": True})
+                steps.append({"do": "save", "path": "A", "src": "T1", "target": [], "mode": "a", "tree": True, "emdpath": None})
+                steps.append({"do": "walk", "path": "A"})
+                first = False
         for _ in range(r.choice([1, 2, 3, 4]) if directed is None else r.choice([0, 1])):
             kind = r.random()
             mode = "w" if first else r.choice(["a", "ao", "append", "appendover"])
@@ -189,6 +206,9 @@ def targeted_roots(st, ms):
             else:
                 names.add("root_savedlist")
         return names
+    if st.get("emdpath"):
+        # a save under an emdpath writes into the tree the emdpath names (first component), whatever tree the node comes from
+        return {[c for c in st["emdpath"].split("/") if c][0]}
     return {ms["src"]["root"]["n"]} if "root" in ms["src"] else {ms["src"]["unrooted"]["n"] + "_root"}
 
 
